@@ -17,6 +17,7 @@ import (
 	"strings"
 	"sync"
 	"time"
+	"unicode/utf16"
 
 	"golang.org/x/text/language"
 	"seehuhn.de/go/geom/matrix"
@@ -1024,6 +1025,48 @@ func (s *c02seedSet) loadGenerated() {
 		w.raw(0, 'T', 0, 'e', 0, 's', 0, 't', 0, 'e', 0, 'n')
 		return w.b
 	})
+	// version 1 name tables whose records refer to the language-tag records
+	// (language id 0x8000+i), with well-formed and ill-formed tags
+	for _, tags := range [][]string{{"de-AT"}, {"x"}, {"Not A Language Tag!", "en-US"}, {""}, {"en", "en"}, {"zh-Hant-HK-x-private-use-and-much-longer-than-any-tag-should-be"}, {"\u00e9\u00e9"}} {
+		tags := tags
+		gen(dName, fmt.Sprintf("name-v1(tags %q)", tags), func() []byte {
+			w := &bw{}
+			var storage []byte
+			str := func(s string) (length, offset int) {
+				offset = len(storage)
+				for _, c := range utf16.Encode([]rune(s)) {
+					storage = append(storage, byte(c>>8), byte(c))
+				}
+				return len(storage) - offset, offset
+			}
+			type rec struct{ pid, eid, lang, nid, length, offset int }
+			var recs []rec
+			for i := range tags {
+				l, o := str(fmt.Sprintf("Family %d", i))
+				recs = append(recs, rec{3, 1, 0x8000 + i, 1, l, o})
+			}
+			recs = append(recs, rec{1, 0, 0x8000, 1, 4, len(storage)})
+			storage = append(storage, "Test"...)
+			l, o := str("Regular")
+			recs = append(recs, rec{3, 1, 0x0409, 2, l, o}, rec{3, 1, 0x8000 + len(tags), 2, l, o})
+			type tg struct{ length, offset int }
+			var tgs []tg
+			for _, t := range tags {
+				l, o := str(t)
+				tgs = append(tgs, tg{l, o})
+			}
+			w.u16(1, len(recs), 6+12*len(recs)+2+4*len(tgs))
+			for _, r := range recs {
+				w.u16(r.pid, r.eid, r.lang, r.nid, r.length, r.offset)
+			}
+			w.u16(len(tgs))
+			for _, t := range tgs {
+				w.u16(t.length, t.offset)
+			}
+			w.raw(storage...)
+			return w.b
+		})
+	}
 	gen(dPost, "post-2", func() []byte {
 		return (&post.Info{ItalicAngle: -12.5, UnderlinePosition: -100, UnderlineThickness: 50, Names: []string{".notdef", "A", "B", "custom.one", "custom.two", "A.alt"}}).Encode()
 	})
